@@ -1,0 +1,14 @@
+//go:build verif
+
+package amm
+
+import sdkmath "cosmossdk.io/math"
+
+// VerifFillHook (build tag "verif" only; nil by default) lets a simulator observe every individual fill.
+var VerifFillHook func(order Order, amt sdkmath.Int, price sdkmath.LegacyDec, paid, received sdkmath.Int)
+
+func verifFill(order Order, amt sdkmath.Int, price sdkmath.LegacyDec, paid, received sdkmath.Int) {
+	if VerifFillHook != nil {
+		VerifFillHook(order, amt, price, paid, received)
+	}
+}
